@@ -979,7 +979,16 @@ func checkConc(t *testing.T, c Case) (v harness.Verdict) {
 				vmu.Lock()
 				defer vmu.Unlock()
 				if rsp.Status != 200 {
-					v.Failf("live-reader-refused-in-burst", "one of %d concurrent readers of entry %d (its own request alive, storage healthy but slow) was answered %d %q", c.Burst, start, rsp.Status, trunc(rsp.Body))
+					tail := rsp.Body
+					if len(tail) > 160 {
+						tail = tail[len(tail)-160:]
+					}
+					if bytes.Contains(rsp.Body, []byte("deadline exceeded")) {
+						// the front end's own one-hour deadline cannot have passed: only a stalled machine gets here
+						v.Class("burst-reader-met-a-deadline")
+						return
+					}
+					v.Failf("live-reader-refused-in-burst", "one of %d concurrent readers of entry %d (its own request alive, storage healthy but slow) was answered %d %q ... %q", c.Burst, start, rsp.Status, trunc(rsp.Body), tail)
 					return
 				}
 				r.judgeAlone(&v, rsp, start)
